@@ -207,7 +207,7 @@ def run_case(case):
     g = np.random.default_rng(case["seed"])
     STATE["viol"] = []
     STATE["evals"] = 0
-    counters = {"vectors": 0, "rejection_checked": 0, "rejection_border_skipped": 0, "ess_helper_checked": 0, "outside_exp_range": 0, "with_neginf": 0}
+    counters = {"recomputed_in_place": 0, "vectors": 0, "rejection_checked": 0, "rejection_border_skipped": 0, "ess_helper_checked": 0, "outside_exp_range": 0, "with_neginf": 0}
     nontrivial = set()
     sample = None
     for j in range(case["n_vec"]):
@@ -232,6 +232,13 @@ def run_case(case):
             counters["vectors"] += 1
             if str(to_np(s.log_w).dtype) != dt:
                 STATE["viol"].append({"mech": "C02/dtype-changed", "detail": f"log_w dtype {to_np(s.log_w).dtype} for requested {dt}"})
+        if j % 5 == 2:
+            # the same object re-weighted: a log-density vector is replaced and compute_weights() called again;
+            # everything must describe the *current* densities (the post-condition contract fires again)
+            c2 = float(g.choice([1.5, -37.25, 250.0]))
+            s.log_likelihood = s.log_likelihood + xp.asarray(np.asarray(c2, dtype=dt))
+            s.compute_weights()
+            counters["recomputed_in_place"] += 1
         lw = np.asarray(to_np(s.log_w), dtype=float)
         fin = lw[np.isfinite(lw)]
         if np.ptp(fin) > 0:
